@@ -52,7 +52,7 @@ def tree_hash():
         except OSError:
             h.update(b'?')
     # the harness and the translator are part of what is built
-    for extra in ('harness/src/main.rs', 'harness/src/ops2.rs', 'harness/src/ops3.rs', 'harness/Cargo.toml.in', 'tools/expand2dfa.py'):
+    for extra in ('harness/src/main.rs', 'harness/src/ops2.rs', 'harness/src/ops3.rs', 'harness/src/ops4.rs', 'harness/Cargo.toml.in', 'tools/expand2dfa.py'):
         with open(os.path.join(VERIF, extra), 'rb') as f:
             h.update(hashlib.sha256(f.read()).digest())
     return h.hexdigest()[:24]
